@@ -76,6 +76,23 @@ def deps_of(interp, K, name):
     return deps, cached_reads
 
 
+class OneShot:
+    """an argument documented as `Iterable`: it can be iterated once (an iterator such as zip or a
+    generator); a second iteration finds nothing.  `.n` / `.elem` give the items of that one pass."""
+
+    def __init__(self, seq):
+        self.seq, self.used = seq, False
+        self.n, self.elem, self.desc = seq.n, seq.elem, seq.desc
+
+    def pyvc_iter(self, interp):
+        from pyvc.interp import _SymbolicIterationNeeded
+
+        if self.used:
+            return iter([])
+        self.used = True
+        raise _SymbolicIterationNeeded(self.seq)
+
+
 class Token:
     """the value a cached property held before the mutator ran"""
 
@@ -84,6 +101,12 @@ class Token:
 
     def __repr__(self):
         return f"<cached {self.name}>"
+
+    def pyvc_truth(self, interp):
+        # a cached lookup is a dict (or a view): it may be empty - its truth value is unknown
+        if not hasattr(self, "_nonempty"):
+            self._nonempty = T.fresh(f"cached_{self.name}_is_nonempty", T.BOOL)
+        return self._nonempty
 
 
 def args_for(interp, m):
@@ -98,7 +121,8 @@ def args_for(interp, m):
         return [n1, l1, n2], {}
     if m == "add_links":
         seq = SSeq(T.var("len.links", T.INT), lambda j: (NG.AItem("given-up", j), NG.AItem("given-link", j), NG.AItem("given-down", j)), "links argument")
-        return [seq], {}
+        # the parameter is documented as an Iterable: it may be a one-shot iterator (zip, generator)
+        return [OneShot(seq)], {}
     if m == "add_origin":
         return [origin(interp, "o1"), n1], {}
     if m == "add_destination":
